@@ -366,6 +366,18 @@ func genC36(seed uint64) *Plan {
 		pl.Peers = append(pl.Peers, pc)
 	}
 	pl.Steps = cfgSteps(len(pl.Cfgs), 0)
+	if r.Chance(0.4) {
+		// some sessions are down while a reload is applied (the neighbour went away a moment before
+		// and comes back afterwards): what the reload changed must hold for the session that follows
+		var st []Step
+		for _, s := range pl.Steps {
+			if s.Kind == "cfg_apply" && s.N > 0 {
+				st = append(st, Step{GapUS: 300_000, Kind: "cfg_drop", N: 1 + r.Intn(1<<uint(len(pl.Peers))-1)})
+			}
+			st = append(st, s)
+		}
+		pl.Steps = st
+	}
 	pl.TailUS = 1_000_000
 	return pl
 }
@@ -422,6 +434,17 @@ func (o *c36Oracle) Init(w *World) {
 				w.Env.probe("neighbour_connects")
 			}
 		}
+	}
+	w.Data["exec:cfg_drop"] = func(w *World, i int, s *Step) {
+		for pi, p := range w.Peers {
+			if s.N&(1<<uint(pi)) == 0 || p.conn == nil || p.conn.peerClosed || p.conn.ClosedByDUT() {
+				continue
+			}
+			p.CloseConn(false)
+			w.Env.fault("peer_close")
+			w.Env.probe("neighbour_down_during_reload")
+		}
+		w.Env.Sim.Settle()
 	}
 	w.Data["exec:cfg_announce"] = func(w *World, i int, s *Step) {
 		for pi, p := range w.Peers {
@@ -531,5 +554,10 @@ func init() {
 	bgpProps["C36"] = propDef{Gen: genC36, Oracles: func(p *Plan) []Oracle {
 		var sink map[string][]string
 		return []Oracle{&c36Oracle{into: &sink}}
-	}, Twin: twinC36}
+	}, Twin: twinC36,
+		// the configuration loads with their (re)connect / announce / observe steps are what the fresh
+		// start is compared with: a plan without them differs from the twin for no reason at all
+		KeepStep: func(s *Step) bool {
+			return s.Kind == "cfg_apply" || s.Kind == "cfg_connect" || s.Kind == "cfg_announce" || s.Kind == "checkpoint"
+		}}
 }
